@@ -47,6 +47,15 @@ package proxy
 //                                        no retry policy) or its outcome is not the transport's
 //   C08.proxy-panic                      a panic escaped ServerPool.handle
 //
+// x-C08 widening: the pool's failureCodes list is drawn ([503], [500 503 504],
+// [500], [] ...) and the backend answers any of 200/404/500/502/503/504: a status
+// that is NOT listed is a success for the breaker (docs: "failed means that backend
+// filter returns non-empty results") and is relayed with result ""; the pool may
+// have 1-3 static servers ("without contacting ANY server") and a pool `timeout`
+// (a backend that hangs or answers too late makes the call fail with a non-empty
+// result other than shortCircuited — C10 owns the exact 408/timeout mapping — and
+// counts as a failed call of the pool).
+//
 // Leniency: nothing is asserted about *which* calls are admitted in HALF_OPEN or
 // when the breaker trips (that is C08 proper); a call overlapping the end of the
 // open wait may go either way; at exactly lastNonOpen + wait both answers are
@@ -77,7 +86,8 @@ type c08pOp struct {
 	GapUs   int64  `json:"gap_us"`
 	Stream  bool   `json:"stream"`
 	BodyLen int    `json:"body_len"`
-	Outcome string `json:"outcome"` // ok | failcode | neterr
+	Outcome string `json:"outcome"` // ok | failcode (503) | neterr | code (answers status Code) | hang (never answers; needs a pool timeout)
+	Code    int    `json:"code,omitempty"`
 	Pool    int    `json:"pool"`    // 0 | 1 (only meaningful with two pools)
 	DurUs   int64  `json:"dur_us"`
 }
@@ -94,6 +104,11 @@ type c08pScenario struct {
 	WaitMs    int64        `json:"wait_ms"`
 	Pools     int          `json:"pools"`       // 1, or 2 pools injected from the SAME policies map
 	TwoProxy  bool         `json:"two_proxies"` // two pools: main pools of two Proxy filters (else main + candidate pool of one Proxy)
+	// FailCodes: the pools' failureCodes; CodesSet false = the historical [503]
+	FailCodes []int `json:"fail_codes,omitempty"`
+	CodesSet  bool  `json:"codes_set,omitempty"`
+	Servers   int   `json:"servers,omitempty"`    // static servers per pool (0 = 1)
+	TimeoutMs int64 `json:"timeout_ms,omitempty"` // pool timeout (0 = none)
 	Callers   []c08pCaller `json:"callers"`
 }
 
@@ -113,6 +128,29 @@ func c08pGen(rng *sim.Rand, tier string) interface{} {
 	failBias1 := rng.Pick(0, 0, 0, 10, failBias)
 	share1 := rng.Pick(20, 50, 50, 80)
 	streamPct := rng.Pick(0, 20, 50, 50, 100)
+	codePct := 0
+	if rng.Bool(0.5) {
+		sc.CodesSet = true
+		switch rng.Intn(5) {
+		case 0:
+			sc.FailCodes = []int{503}
+		case 1:
+			sc.FailCodes = []int{500, 503, 504}
+		case 2:
+			sc.FailCodes = []int{500}
+		case 3:
+			sc.FailCodes = []int{502, 504, 404}
+		default:
+			sc.FailCodes = nil // no failure codes at all: only network errors fail
+		}
+		codePct = rng.Pick(30, 60, 100)
+	}
+	sc.Servers = rng.Pick(1, 1, 2, 3)
+	hangPct := 0
+	if rng.Bool(0.3) {
+		sc.TimeoutMs = int64(rng.Pick(1, 50, 1000, 5000))
+		hangPct = rng.Pick(0, 20, 50)
+	}
 	sc.Callers = make([]c08pCaller, nc)
 	gaps := []int64{0, 0, 0, 1, 1000, 100000, sc.WaitMs * 1000 / 2, sc.WaitMs*1000 - 1, sc.WaitMs * 1000, sc.WaitMs*1000 + 1}
 	if sc.WaitMs > 100000 {
@@ -139,7 +177,20 @@ func c08pGen(rng *sim.Rand, tier string) interface{} {
 		default:
 			op.Outcome = "neterr"
 		}
+		if codePct > 0 && rng.Intn(100) < codePct {
+			// any status, listed as a failure code or not
+			op.Outcome, op.Code = "code", rng.Pick(200, 404, 500, 502, 503, 504)
+			if x := rng.Intn(100); x < fb && len(sc.FailCodes) > 0 {
+				op.Code = sc.FailCodes[rng.Intn(len(sc.FailCodes))]
+			}
+		}
 		op.DurUs = int64(rng.Pick(0, 0, 1, 100, 10000, 1000000))
+		if sc.TimeoutMs > 0 {
+			op.DurUs = int64(rng.Pick(0, 0, 1, 100, int(sc.TimeoutMs*500), int(sc.TimeoutMs*1000-1), int(sc.TimeoutMs*1000+1), int(sc.TimeoutMs*3000)))
+			if rng.Intn(100) < hangPct {
+				op.Outcome = "hang"
+			}
+		}
 		c := rng.Intn(nc)
 		sc.Callers[c].Ops = append(sc.Callers[c].Ops, op)
 	}
@@ -158,7 +209,9 @@ type c08pCall struct {
 	quietStart bool // no other call was between transport exit and return at the start
 	op         c08pOp
 	sends      int
-	outcome    string
+	outcome    string // what the transport did: ok | code | neterr | timeout
+	code       int
+	failed     bool // ... and whether that is a failed call by the pool's failureCodes
 }
 
 var c08pErrNet = errors.New("c08p transport: connection refused")
@@ -181,7 +234,38 @@ func c08pExec(r *sim.Run, sci interface{}) {
 		r.Violate("C08.proxy-other", "circuit breaker policy rejected: %v", err)
 		return
 	}
-	spec := &ServerPoolSpec{Servers: []*Server{{URL: "http://10.1.0.1:8080"}}, FailureCodes: []int{503}, CircuitBreakerPolicy: "c08pcb"}
+	failCodes := []int{503}
+	if sc.CodesSet {
+		failCodes = nil
+		for _, c := range sc.FailCodes {
+			if c >= 100 && c <= 599 {
+				failCodes = append(failCodes, c)
+			}
+		}
+	}
+	isFailCode := func(code int) bool {
+		for _, c := range failCodes {
+			if c == code {
+				return true
+			}
+		}
+		return false
+	}
+	nServers := sc.Servers
+	if nServers < 1 || nServers > 8 {
+		nServers = 1
+	}
+	mkSpec := func(net int) *ServerPoolSpec {
+		sp := &ServerPoolSpec{FailureCodes: append([]int(nil), failCodes...), CircuitBreakerPolicy: "c08pcb"}
+		for i := 0; i < nServers; i++ {
+			sp.Servers = append(sp.Servers, &Server{URL: fmt.Sprintf("http://10.1.%d.%d:8080", net, i+1)})
+		}
+		if sc.TimeoutMs > 0 {
+			sp.Timeout = fmt.Sprintf("%dms", sc.TimeoutMs)
+		}
+		return sp
+	}
+	spec := mkSpec(0)
 	if spec.Validate() != nil {
 		return
 	}
@@ -199,7 +283,7 @@ func c08pExec(r *sim.Run, sci interface{}) {
 	px.mainPool = NewServerPool(px, spec, "c08ppool0")
 	pools = append(pools, px.mainPool)
 	if nPools == 2 {
-		spec1 := &ServerPoolSpec{Servers: []*Server{{URL: "http://10.1.0.2:8080"}}, FailureCodes: []int{503}, CircuitBreakerPolicy: "c08pcb"}
+		spec1 := mkSpec(1)
 		if sc.TwoProxy {
 			px1 := &Proxy{spec: &Spec{}}
 			px1.mainPool = NewServerPool(px1, spec1, "c08ppool1")
@@ -240,7 +324,7 @@ func c08pExec(r *sim.Run, sci interface{}) {
 		return strings.Join(h, " | ")
 	}
 	describe := func() string {
-		return fmt.Sprintf("pools=%d (two proxies: %v, one policy object injected into all) breaker: COUNT_BASED window=%d minCalls=%d failureRate=%d%% permittedInHalfOpen=%d waitDurationInOpenState=%v", nPools, sc.TwoProxy && nPools == 2, sc.Window, sc.MinCalls, sc.FailPct, sc.Permitted, wait)
+		return fmt.Sprintf("servers/pool=%d failureCodes=%v poolTimeout=%dms pools=%d (two proxies: %v, one policy object injected into all) breaker: COUNT_BASED window=%d minCalls=%d failureRate=%d%% permittedInHalfOpen=%d waitDurationInOpenState=%v", nServers, failCodes, sc.TimeoutMs, nPools, sc.TwoProxy && nPools == 2, sc.Window, sc.MinCalls, sc.FailPct, sc.Permitted, wait)
 	}
 
 	// all breaker bookkeeping is per pool (each pool must have its own breaker)
@@ -260,6 +344,9 @@ func c08pExec(r *sim.Run, sci interface{}) {
 	var sawCleanPoolServed bool
 	inflight := map[string]*c08pCall{}
 	var sawShort, sawShortStream, sawHalfOpen, sawReopen bool
+	var sawUnlisted, sawOtherFailCode, sawTimeout, sawShortAfterTimeout bool
+	timeouts := 0
+	serversHit := map[string]bool{}
 	opened := 0
 
 	fnSendRequest = func(hr *http.Request, _ *http.Client) (*http.Response, error) {
@@ -284,24 +371,63 @@ func c08pExec(r *sim.Run, sci interface{}) {
 				r.Violate("C08.proxy-admitted-not-once", "call %s reached the transport %d times (no retry policy)\n%s\nhistory: %s", st.name, st.sends, describe(), history())
 			}
 		}
+		serversHit[fmt.Sprintf("p%d|%s", st.pool, hr.URL.Host)] = true
 		d := time.Duration(st.op.DurUs) * time.Microsecond
-		st.outcome = st.op.Outcome
+		st.outcome, st.code = st.op.Outcome, 200
+		switch st.outcome {
+		case "failcode":
+			st.outcome, st.code = "code", 503
+		case "code":
+			st.code = st.op.Code
+			if st.code < 200 || st.code > 599 {
+				st.code = 200
+			}
+		case "ok", "neterr", "hang":
+		default:
+			st.outcome = "ok"
+		}
+		// a pool timeout: the request's context carries the deadline; a backend that hangs or
+		// answers too late is cut off by it, as a real transport would be
+		qctx := hr.Context()
+		if dl, ok := qctx.Deadline(); ok {
+			if rem := time.Until(dl); st.outcome == "hang" || d >= rem {
+				if st.outcome == "hang" {
+					r.Fault("c08p.backend_hangs")
+				} else {
+					r.Fault("c08p.backend_answers_after_pool_timeout")
+				}
+				d = rem + time.Microsecond
+				if d < 0 {
+					d = 0
+				}
+			}
+		} else if st.outcome == "hang" {
+			st.outcome = "neterr" // no timeout configured: the connection breaks instead
+		}
 		if !r.Violated() && !r.Aborted() {
 			r.Sleep(d)
 		}
+		if qctx.Err() != nil {
+			st.outcome = "timeout"
+			timeouts++
+			sawTimeout = true
+		} else if st.outcome == "hang" {
+			st.outcome = "neterr"
+		}
+		st.failed = st.outcome == "neterr" || st.outcome == "timeout" || (st.outcome == "code" && isFailCode(st.code))
 		observe(st.pool)
 		transportExits[st.pool]++
 		postExit[st.pool]++
-		if st.outcome != "ok" {
+		if st.failed {
 			failedExits[st.pool]++
 		}
 		switch st.outcome {
-		case "failcode":
-			return &http.Response{StatusCode: 503, Header: http.Header{}, Body: http.NoBody}, nil
+		case "timeout":
+			return nil, qctx.Err()
 		case "neterr":
 			return nil, c08pErrNet
 		}
-		return &http.Response{StatusCode: 200, Header: http.Header{}, Body: http.NoBody}, nil
+		return &http.Response{StatusCode: st.code, Header: http.Header{}, Body: http.NoBody}, nil
 	}
 
 	for ci := range sc.Callers {
@@ -427,16 +553,27 @@ func c08pExec(r *sim.Run, sci interface{}) {
 						name, op.Stream, pi, transportExits[pi], failedExits[pi], sc.MinCalls, other, describe(), history())
 				case st.sends == 0 && st.seenClosed && s1 == libcb.StateClosed && exitsByOthers == 0 && st.quietStart:
 					r.Violate("C08.proxy-shortcircuit-while-closed", "call %s (stream=%v) was short-circuited although the breaker was CLOSED before and after it and no other call left the transport in between\n%s\nhistory: %s", name, op.Stream, describe(), history())
+				case st.sends == 1 && st.outcome == "timeout":
+					// cut off by the pool timeout: a failed call (C10 owns the exact 408 / timeout mapping)
+					if result == "" || result == "shortCircuited" || !hasResp || status < 400 {
+						r.Violate("C08.proxy-admitted-not-once", "call %s was admitted and cut off by the pool timeout, but the pool reports result %q status %d (expected a failure result)\n%s\nhistory: %s", name, result, status, describe(), history())
+					}
 				case st.sends == 1:
-					want, wantStatus := "", 200
-					switch st.outcome {
-					case "failcode":
-						want, wantStatus = "failureCode", 503
-					case "neterr":
+					want, wantStatus := "", st.code
+					switch {
+					case st.outcome == "code" && st.failed:
+						want = "failureCode"
+					case st.outcome == "neterr":
 						want, wantStatus = "serverError", 503
 					}
 					if result != want || !hasResp || status != wantStatus {
-						r.Violate("C08.proxy-admitted-not-once", "call %s was admitted, the transport answered %q, but the pool reports result %q status %d (expected %q / %d)\n%s\nhistory: %s", name, st.outcome, result, status, want, wantStatus, describe(), history())
+						r.Violate("C08.proxy-admitted-not-once", "call %s was admitted, the transport answered %q (status %d, failureCodes %v), but the pool reports result %q status %d (expected %q / %d)\n%s\nhistory: %s", name, st.outcome, st.code, failCodes, result, status, want, wantStatus, describe(), history())
+					}
+					if st.outcome == "code" && !st.failed && st.code >= 400 && !r.Violated() {
+						sawUnlisted = true
+					}
+					if st.outcome == "code" && st.failed && st.code != 503 && !r.Violated() {
+						sawOtherFailCode = true
 					}
 				}
 				if nPools == 2 && st.sends == 1 && failedExits[pi] == 0 && failedExits[1-pi] > 0 && brk[1-pi].State() == libcb.StateOpen {
@@ -446,6 +583,9 @@ func c08pExec(r *sim.Run, sci interface{}) {
 					sawShort = true
 					if op.Stream {
 						sawShortStream = true
+					}
+					if timeouts > 0 {
+						sawShortAfterTimeout = true
 					}
 					if st.seenOpen && r.Now() < st.openUntil {
 						r.Probe("c08p.shortcircuit_while_certainly_open")
@@ -470,11 +610,17 @@ func c08pExec(r *sim.Run, sci interface{}) {
 	probe(len(sc.Callers) >= 2, "c08p.concurrent_callers")
 	probe(nPools == 2, "c08p.two_pools_one_policy_object")
 	probe(sawCleanPoolServed, "c08p.clean_pool_served_while_other_pool_open")
+	probe(sawUnlisted, "c08p.unlisted_error_status_relayed_as_success")
+	probe(sawOtherFailCode, "c08p.failure_code_other_than_503")
+	probe(sc.CodesSet && len(failCodes) == 0, "c08p.no_failure_codes_configured")
+	probe(sawTimeout, "c08p.pool_timeout_cut_off_a_call")
+	probe(sawShortAfterTimeout, "c08p.short_circuited_after_timeouts")
+	probe(nServers >= 2 && len(serversHit) > nPools, "c08p.several_servers_of_a_pool_contacted")
 	if sawShort {
 		r.Nontrivial()
 	}
 	var sig strings.Builder
-	fmt.Fprintf(&sig, "%d/%v|%d/%d/%d/%d/%d|", nPools, sc.TwoProxy, sc.FailPct, sc.Window, sc.MinCalls, sc.Permitted, sc.WaitMs)
+	fmt.Fprintf(&sig, "%d/%v|%d/%d/%d/%d/%d|%v/%d/%d|", nPools, sc.TwoProxy, sc.FailPct, sc.Window, sc.MinCalls, sc.Permitted, sc.WaitMs, failCodes, nServers, sc.TimeoutMs)
 	for _, h := range hist {
 		if i := strings.IndexByte(h, '@'); i > 0 {
 			sig.WriteString(h[:i])
@@ -507,14 +653,15 @@ func TestVerifC08P(t *testing.T) {
 		New:      func() interface{} { return &c08pScenario{} },
 		Exec:     c08pExec,
 		MaxSteps: 30000,
-		Rule: "scenario = one pool, or two pools (main+candidate of one Proxy / two Proxies) injected from the same policies map, the second often perfectly healthy; drawn COUNT_BASED breaker (window 1-6, minCalls, failure rate, permitted trials 1-3, open wait 50ms-24h) injected into a real ServerPool + 1-4 caller tasks issuing 4-30 buffered or STREAM requests with scripted transport outcomes (200, failure code, network error) and hold times, gaps incl. the exact open wait; " +
+		Rule: "scenario = one pool, or two pools (main+candidate of one Proxy / two Proxies) injected from the same policies map, the second often perfectly healthy; drawn COUNT_BASED breaker (window 1-6, minCalls, failure rate, permitted trials 1-3, open wait 50ms-24h) injected into a real ServerPool + 1-4 caller tasks issuing 4-30 buffered or STREAM requests with scripted transport outcomes (200, any of 404/500/502/503/504 listed or not in the pool's drawn failureCodes, network error, hang / late answer under a pool timeout) and hold times, 1-3 servers per pool, gaps incl. the exact open wait; " +
 			"non-trivial = at least one call was short-circuited; distinct = distinct (policy, call/send/return event order with breaker states) signatures",
 		Real: []string{"pkg/filters/proxy ServerPool (NewServerPool, InjectResiliencePolicy, handle, doHandle, buildFailureResponse)", "pkg/resilience (NewPolicy, CircuitBreakerPolicy.CreateWrapper, circuitBreakerWrapper.Wrap)", "pkg/util/circuitbreaker", "pkg/protocols/httpprot Request (buffered and stream payloads)"},
 		Stub: []string{"transport: fnSendRequest replaced by a counting scripted backend", "callers are harness tasks", "sync.Mutex -> simsync, sync/atomic -> simatomic (same semantics + gates)"},
 		Assumptions: []string{
 			"the breaker's State() read between two scheduler gates is its current state; an OPEN episode seen at t began after the last instant a non-OPEN state was seen, so it lasts at least until that instant + waitDurationInOpenState",
-			"the only reason for a call not to reach the transport is the breaker (one static server, no retry, no timeout, no cache)",
-			"breakers are per pool: a pool can only be short-circuited after >= minimumNumberOfCalls of its own calls left the transport, at least one of them failing (results are recorded after the transport returns; slow calls impossible with a 24h threshold)",
+			"the only reason for a call not to reach the transport is the breaker (static servers, no retry, no cache; a pool timeout only cuts calls off inside the transport)",
+			"a backend status that is not in the pool's failureCodes is a success for the breaker and is relayed with an empty result; a call cut off by the pool timeout is a failed call (exact result/status mapping is C10's)",
+			"breakers are per pool: a pool can only be short-circuited after >= minimumNumberOfCalls of its own calls left the transport, at least one of them failing = network error, listed failure code or pool timeout (results are recorded after the transport returns; slow calls impossible with a 24h threshold)",
 			"which calls are admitted in HALF_OPEN and when the breaker trips is property C08 proper and not asserted here",
 		},
 	})
